@@ -331,6 +331,19 @@ def _check_invariants(w, cfg, run, eng, close, bad):
         inst.freeze_data()
         inv = inst['Weyl_invariants']
         vals.append((inv['I'], inv['J']))
+        # the fluid-adapted tetrad of a TILTED fluid must be g-orthonormal
+        tet = inst.tetrad_base()
+        eta = np.diag([-1.0, 1, 1, 1])
+        for i in range(4):
+            for j in range(i, 4):
+                ip = np.einsum('a...,b...,ab...->...', tet[i], tet[j],
+                               w.exact['g'])
+                d = float(np.max(np.abs(ip - eta[i, j])))
+                if not d <= 1e-9:
+                    bad('tetrad_other_not_orthonormal:tilted_fluid',
+                        f'tilted fluid: g(e{i}, e{j}) deviates from '
+                        f'{eta[i, j]} by {d:.3e}')
+                    return
     eng.probe('invariants_two_tetrads')
     e = (close(vals[0][0], vals[1][0], 2, 'invariant I, two fluid-adapted '
                'orthonormal tetrads')
